@@ -229,6 +229,7 @@ def run(ctx):
     class_hierarchy_is_acyclic(ctx)
     lookup_results_are_nullable(ctx)
     parallel_subscripts_are_bounded(ctx)
+    instance_substitution_registers_first(ctx)
     containment_recursion(ctx)
     construction_stacks(ctx)
     lexer_restore_order(ctx)
@@ -2109,3 +2110,54 @@ def parallel_subscripts_are_bounded(ctx):
                 ctx.ob("R15.26", "%s|%s[%s]|as-long-as-%s" % (f.name, b[:40], ri.get("n"), As[0][:30]), why is not None, f.loc(x),
                        why or "`%s[%s]` inside a loop bounded by %s.size(): nothing in this function says that %s is as long" % (b, ri.get("n"), As[0], b))
     ctx.floor("R15.26", "subscripts of a container other than the one that bounds the loop", n, 20)
+
+
+def instance_substitution_registers_first(ctx):
+    """R15.27: template instantiation copies a declaration graph with substitute_decl(subst, ...); the map `subst` (old ->
+    new) is what keeps a node that is reachable twice - or reachable from itself - from being copied again.  An
+    instance (variable, enumerator, function) reaches itself through its initializer: `enum { v = F<N-1>::v }` inside
+    template F names F's own `v`.  CPPInstance::substitute_decl must therefore enter `this` in the map BEFORE it descends
+    into _type and _initializer.  (F-C15z: the map entry was made after the descent; the factorial metaprogram -
+    valid C++ - overflowed the stack.)"""
+    db = ctx.db
+    ctx.rule("R15.27", "in CPPInstance::substitute_decl every substitute_decl() call on _type / _initializer is reached only after `subst[this] = ...` (or subst.insert of this)")
+    fs = [g for g in db.functions if g.name == "CPPInstance::substitute_decl"]
+    if not fs:
+        ctx.broken("R15.27: CPPInstance::substitute_decl not found")
+        return
+    f = fs[0]
+    pd = (f.params or [{}])[0].get("d")
+    regs = []
+    for y in f.walk():
+        if y.get("k") == "call" and callee_short(y) in ("operator[]", "insert", "emplace") and (("this" in y and (local_ref(y["this"]) or {}).get("d") == pd) or
+                                                                                                 (y.get("a") and (local_ref(y["a"][0]) or {}).get("d") == pd)):
+            if any(z.get("k") == "this" for a in y.get("a", []) for z in walk(a)):
+                regs.append(y)
+    desc = [c for c in f.walk() if c.get("k") == "call" and callee_short(c) == "substitute_decl" and "this" in c and
+            (field_of(strip_casts(peel(c["this"]))) or "") in ("CPPInstance::_type", "CPPInstance::_initializer")]
+    entry = f.body["s"][0] if f.body and f.body.get("s") else None
+    for c in desc:
+        fld = field_of(strip_casts(peel(c["this"]))).split("::")[-1]
+        ok = bool(regs) and entry is not None and not _reaches_without(f, entry, regs, c)
+        ctx.ob("R15.27", "CPPInstance::substitute_decl|%s->substitute_decl|after-registration" % fld, ok, f.loc(c),
+               "the descent into %s happens %s this instance is in the substitution map" % (fld, "only after" if ok else "BEFORE"))
+    ctx.floor("R15.27", "descents of CPPInstance::substitute_decl", len(desc), 2)
+
+
+def _reaches_without(f, entry_stmt, via, sink):
+    """Can `sink` be reached from the function's first statement without executing any of `via`?"""
+    cfg = f.cfg
+    first = None
+    for y in walk(entry_stmt):
+        if cfg.locate(y) is not None:
+            first = y
+            break
+    if first is None:
+        return True
+    lf = cfg.locate(first)
+    lk = cfg.locate(sink)
+    if lk is None:
+        return True
+    if lf == lk:
+        return True
+    return G.reaches_avoiding(f, first, via, sink)
